@@ -14,7 +14,7 @@ for d in sorted(glob.glob('/verif/seeded/C*')):
         return m.group(1) if m else default
     demo_p = grab(r'demo on pristine tree: exit=(\d+)')
     demo_s = grab(r'demo on seeded tree: exit=(\d+)')
-    suite = grab(r'suite on seeded tree:\s*(.*)')
+    suite = grab(r'suite on seeded tree[^:]*:\s*(.*)')
     fails = grab(r'suite failures/timeouts: (.*?)\s+\(baseline')
     checks = re.findall(r'check (C\d+) on seeded tree: exit=(\d+); (\d+) VIOLATION line\(s\); first: (.*)', log)
     detected = [c for c, rc, n, _ in checks if rc == '1' and int(n) > 0]
@@ -30,6 +30,7 @@ for d in sorted(glob.glob('/verif/seeded/C*')):
         'what_i_ran': [
             'tools/confirm_seed.sh: demo on the pristine worktree, patch applied + demo again, the repository suite (cargo nextest, baseline command) on the seeded tree, then the registered quick checks through tools/run_on_tree.sh',
         ],
+        'suite_note': ('the five tests that time out at 300 s on the unchanged tree in this sandbox (BASELINE.json always_fail) were left out of the suite run for this seed (tools/confirm_seed_fast.sh): they cannot distinguish a changed tree' if 'without the 5 baseline' in log else 'full baseline command'),
         'confirmation': {
             'demo_exit_pristine': demo_p, 'demo_exit_seeded': demo_s,
             'suite_on_seeded_tree': suite, 'timeouts_rerun_and_passed': sorted(rerun_passed), 'suite_failures_beyond_baseline_timeouts': extra_fail,
